@@ -688,7 +688,7 @@ fn run_in_children(docs: &[(String, String)]) -> Vec<Option<String>> {
         Ok(e) => e,
         Err(_) => return docs.iter().map(|_| None).collect(),
     };
-    let limit = Duration::from_secs(20);
+    let limit = Duration::from_secs(30);
     while out.len() < docs.len() {
         let start = out.len();
         let child = Command::new(&exe).arg("tool").arg("c19view").stdin(Stdio::piped()).stdout(Stdio::piped()).stderr(Stdio::null()).spawn();
@@ -1014,8 +1014,18 @@ fn gen_glyph_fields(rng: &mut Rng) -> Vec<(String, J)> {
         let p: &str = *rng.pick(&PATHS[..]);
         f.push(("path".to_string(), if rng.chance(1, 12) { gen_scalar(rng) } else { js(p) }));
     }
-    if rng.chance(1, 10) {
-        f.push(("scene".to_string(), gen_scalar(rng)));
+    if rng.chance(1, 5) {
+        if rng.chance(1, 3) {
+            f.push(("scene".to_string(), gen_scalar(rng)));
+        } else {
+            // a valid rasterize scene; half of the time without a competing path
+            if rng.chance(1, 2) {
+                f.retain(|(k, _)| k != "path");
+            }
+            let fill = obj(vec![("type", js("fill")), ("paint", js("#ff0000")), ("path", js("M0,0L1,1L0,1Z"))]);
+            let scene = if rng.chance(1, 3) { obj(vec![("type", js("group")), ("children", J::A(vec![fill.clone(), fill]))]) } else { fill };
+            f.push(("scene".to_string(), scene));
+        }
     }
     if rng.chance(1, 3) {
         f.push(("size".to_string(), if rng.chance(1, 3) { gen_size_j(rng) } else { J::A(vec![J::U(rng.below(3)), J::U(rng.below(5))]) }));
